@@ -2,6 +2,7 @@ package historyprunner
 
 import (
 	"encoding/binary"
+	"errors"
 	"fmt"
 
 	"github.com/NethermindEth/juno/core"
@@ -89,6 +90,11 @@ func copyStateHistory(
 // copyValue reads source into buf, then writes buf to dest. buf is the
 // caller's reusable felt-sized scratch (32 bytes); after Put returns, the
 // underlying batch has copied buf, so the caller may overwrite it safely.
+//
+// A missing source is not an error: a state-diff entry has no history entry
+// when the block did not change the value (the old state backend logs changed
+// values only) or when the database was written by the new state backend,
+// which keeps its history in other buckets. There is nothing to copy then.
 func copyValue(
 	reader db.KeyValueReader,
 	writer db.KeyValueWriter,
@@ -107,6 +113,9 @@ func copyValue(
 		copy(buf, data)
 		return nil
 	})
+	if errors.Is(err, db.ErrKeyNotFound) {
+		return nil
+	}
 	if err != nil {
 		return err
 	}
